@@ -34,7 +34,7 @@ CHECKS.update({
                  "in-flight writes kept, torn sectors), or 1-4 at-rest media faults are placed by structure (superblock, descriptor, "
                  "bitmap, inode, extent/indirect, directory, htree, xattr fields; sectors; with or without re-sealed checksums).  Then "
                  "e2fsck -fy; if its status claims success, e2fsck -fn must exit 0 with an empty problem log.  Genuine non-convergent "
-                 "classes of the pinned tree are listed in KNOWN_FINDINGS.jsonl by class key; every other class is a violation.  Sampling."),
+                 "classes of the pinned tree are listed in KNOWN_FINDINGS.jsonl by class key; every other class is a violation.  Sampling.  A recurrence (the same problem code on the same object that the first run answered yes to) is keyed apart from follow-on problems; the listed families are bounded by follow-on problem code (DESIGN.md section 11)."),
         "note": "Trusted: shim event log and crash-state reconstruction; the problem log (E2FSCK_CONFIG problem_log_filename) as the witness of 'reports no problem'. Images <= 32 MiB.",
     },
     "C02": {
@@ -81,7 +81,7 @@ CHECKS.update({
         "text": ("e2fsck -n/-p/-y, debugfs read-only batteries, dumpe2fs, tune2fs -l, resize2fs -P, e2image, e2undo, e2freefrag run on the "
                  "simulator's fault images (structure-addressed, raw sector, truncated device), on damaged undo files and qcow2 images.  "
                  "Oracle: no sanitizer report, no fatal signal, termination within the device-event budget and CPU limit, documented exit "
-                 "status.  Findings are keyed by (tool+mode, error kind, innermost /repo frame).  Sampling of an unbounded input space."),
+                 "status.  Findings are keyed by (tool+mode, error kind, innermost /repo frame).  Sampling of an unbounded input space.  Also fast-commit areas written by an independent writer and then damaged (record lengths, tags, limits; tail checksums re-sealed), undo files damaged by structure, and a share of states aimed at the superblock's geometry fields; e2fsck's own 'Signal (N)' report counts as a fatal signal."),
         "note": "Trusted: ASan/UBSan(bounds) runtimes; allocator_may_return_null so that absurd sizes read from the image take the ENOMEM path.",
     },
     "C07": {
@@ -109,7 +109,7 @@ CHECKS.update({
                  "block-device personality), then e2undo in reverse: the device must equal the recorded pre-image byte for byte over its original "
                  "length.  Fault configurations: recorder killed at a seeded event (every block an independent parse finds recorded must be "
                  "restored, a refusal must not write, an unfinished file must mark the fs); one flipped bit per undo-file region (refuse with "
-                 "zero mutating events, or exact result); wrong filesystem / wrong order (refuse without writing); -n (zero mutating events).  Sampling."),
+                 "zero mutating events, or exact result); wrong filesystem / wrong order (refuse without writing); -n (zero mutating events).  Sampling.  Kill mode has a write-ahead clause: after an accepted replay of a killed run's undo file the whole device is back (apart from what e2undo itself rewrites)."),
         "note": "Trusted: independent undo-file parser in checks/C12.py; kill model = bytes handed to write(2) survive, tool caches do not.",
     },
     "C17": {
@@ -119,7 +119,7 @@ CHECKS.update({
                  "set_blksize, flush, reopen on channel configurations {cached, cache=off, write-through, bounce, offset, undo-wrapped}; every read "
                  "equals the model, after flush/close the backing file equals the model and a barrier follows the last write, an injected write "
                  "failure is reported before success is claimed.  h_rwbitmaps loads bitmaps with 1..16 simulated CPUs under seeded interleavings; "
-                 "bitmaps, tail flags and return code must equal the single-thread result.  Sampling of schedules and histories."),
+                 "bitmaps, tail flags and return code must equal the single-thread result.  Sampling of schedules and histories.  After every flush that reports success a snapshot of the backing file is compared with the model (strictly, as long as no operation has reported an error); injected write errors last for 1, 3 or all later writes."),
         "note": "Trusted: blkdevmodel in checks/C17.py; simsched serialises real pthreads at I/O and pthread calls. The race clause needs the tsan flavour (clang); if it cannot be built the evidence says so.",
     },
     "C20": {
